@@ -60,7 +60,11 @@ class pcomp(object):
         # Sort eigenvalues in descending order
         #
         ie = evals.argsort()[::-1]
-        self._evals = evals[ie]
+        #
+        # The matrix is positive semi-definite; for rank-deficient data
+        # round-off can make the smallest eigenvalues slightly negative.
+        #
+        self._evals = np.maximum(evals[ie], 0.0)
         self._evecs = evecs[:, ie]
         #
         # If necessary, add code to fix the signs of the eigenvectors.
